@@ -138,6 +138,8 @@ impl XRefTable {
                 XRef::Free { next_obj_nr, gen_nr } => (0, next_obj_nr, gen_nr),
                 XRef::Raw { pos, gen_nr } => (1, pos as u64, gen_nr),
                 XRef::Stream { stream_id, index } => (2, stream_id, index as u64),
+                // a number below /Size that no section defines is a free entry
+                XRef::Invalid => (0, 0, 0xffff),
                 x => bail!("invalid xref entry: {:?}", x)
             };
             data.push(t);
